@@ -10,15 +10,17 @@ Open Scope Z_scope.
 (* PARTIAL.  Proved for every mandatory, non-operand resource constraint, over the busy intervals the
    resource had when the constraint was created: ResourceUnavailable (no overlap with any window),
    WorkLoad (sum over busy intervals of the overlap with each window = / <= / >= bound, windows
-   with lo <= hi), ResourceInterrupted and ResourcePeriodicallyInterrupted on tasks that are not of variable duration,
+   with lo <= hi), ResourceInterrupted (tasks that are not of variable duration never overlap an interruption; a task of
+   variable duration neither starts nor ends inside one and lasts at least its minimum / at most its maximum duration plus
+   the length of the interruptions it overlaps), ResourcePeriodicallyInterrupted on tasks that are not of variable duration,
    ResourcePeriodicallyUnavailable (windows 0 <= lo < hi <= period; the part of the busy interval inside the active
    range [start, end) meets no repetition of the window -- C04_periodic_pointwise below gives the instant-by-instant
    reading), ResourceNonDelay and ResourceTasksDistance (for two consecutive assigned busy intervals of the resource,
    when every busy interval is parked or assigned over a non-empty span and they are pairwise disjoint -- what C02 gives
    on a worker -- the gap is 0, resp. compares with the distance as the mode says, inside the listed intervals if any),
    SameWorkers, DistinctWorkers.
-   Swept only (spec_C04_swept; refuted): busy intervals added after the constraint was created (known finding F07);
-   the variable-duration clauses of ResourceInterrupted.  Unspecified: variable-duration tasks under
+   Swept only (spec_C04_swept; refuted): busy intervals added after the constraint was created (known finding F07).
+   Unspecified: variable-duration tasks under
    ResourcePeriodicallyInterrupted. *)
 Theorem C04_resource_constraints_partial : forall (st : pstate) (e : env),
   sat e (initialize st) -> forall k f, In (k, f) (spec_C04 st) -> feval e f = true.
